@@ -156,14 +156,24 @@ pub fn run(op: &str, a: &[&str]) -> Option<String> {
         ("ck.w.tcp4", [src, dst, h, pl]) => {
             let (src, dst, hb, pl) = (arr::<4>(src)?, arr::<4>(dst)?, hex(h)?, hex(pl)?);
             let hdr = TcpHeader::from_slice(&hb).ok()?.0;
-            if hdr.to_bytes().as_slice() != hb.as_slice() {
-                return Some(format!("reencode-differs({})", to_hex(&hdr.to_bytes())));
-            }
             let hs = TcpHeaderSlice::from_slice(&hb).ok()?;
             let mut all = hb.clone();
             all.extend_from_slice(&pl);
             let ts = TcpSlice::from_slice(&all).ok()?;
             let ip = Ipv4Header::new(0, 64, IpNumber::TCP, src, dst).ok()?;
+            if hdr.to_bytes().as_slice() != hb.as_slice() {
+                // bits the struct does not hold (reserved bits of octet 12): only the routes that sum the wire bytes
+                let mut canon = hb.clone();
+                canon[12] &= 0xf1;
+                if hdr.to_bytes().as_slice() != canon.as_slice() {
+                    return Some(format!("reencode-differs({})", to_hex(&hdr.to_bytes())));
+                }
+                return Some(same(&[
+                    ("hslice", r16(hs.calc_checksum_ipv4_raw(src, dst, &pl))),
+                    ("hslice_ip", r16(hs.calc_checksum_ipv4(&Ipv4HeaderSlice::from_slice(&ip.to_bytes()).ok()?, &pl))),
+                    ("slice", r16(ts.calc_checksum_ipv4(src, dst))),
+                ]));
+            }
             let mut th = TransportHeader::Tcp(hdr.clone());
             let upd = th
                 .update_checksum_ipv4(&ip, &pl)
@@ -183,9 +193,6 @@ pub fn run(op: &str, a: &[&str]) -> Option<String> {
         ("ck.w.tcp6", [src, dst, h, pl]) => {
             let (src, dst, hb, pl) = (arr::<16>(src)?, arr::<16>(dst)?, hex(h)?, hex(pl)?);
             let hdr = TcpHeader::from_slice(&hb).ok()?.0;
-            if hdr.to_bytes().as_slice() != hb.as_slice() {
-                return Some(format!("reencode-differs({})", to_hex(&hdr.to_bytes())));
-            }
             let hs = TcpHeaderSlice::from_slice(&hb).ok()?;
             let mut all = hb.clone();
             all.extend_from_slice(&pl);
@@ -196,6 +203,18 @@ pub fn run(op: &str, a: &[&str]) -> Option<String> {
                 next_header: IpNumber::TCP,
                 ..Default::default()
             };
+            if hdr.to_bytes().as_slice() != hb.as_slice() {
+                let mut canon = hb.clone();
+                canon[12] &= 0xf1;
+                if hdr.to_bytes().as_slice() != canon.as_slice() {
+                    return Some(format!("reencode-differs({})", to_hex(&hdr.to_bytes())));
+                }
+                return Some(same(&[
+                    ("hslice", r16(hs.calc_checksum_ipv6_raw(src, dst, &pl))),
+                    ("hslice_ip", r16(hs.calc_checksum_ipv6(&Ipv6HeaderSlice::from_slice(&ip.to_bytes()).ok()?, &pl))),
+                    ("slice", r16(ts.calc_checksum_ipv6(src, dst))),
+                ]));
+            }
             let mut th = TransportHeader::Tcp(hdr.clone());
             let upd = th
                 .update_checksum_ipv6(&ip, &pl)
